@@ -200,11 +200,11 @@ type tokenContract struct {
 }
 
 var tokenContracts = map[string]tokenContract{
-	"(*leveldb.DB).Write":        {0, []int{0}, []int{0}, "", "acquires, then every exit goes through writeLocked / the merged-ack path / a finished transaction"},
-	"(*leveldb.DB).putRec":       {0, []int{0}, []int{0}, "", "as Write"},
-	"(*leveldb.DB).CompactRange": {0, []int{0}, []int{0}, "memNonNil", "releases on every exit; the nil-effective-buffer exit is unreachable while the token is held (only Close clears the buffers, after taking the token)"},
-	"(*leveldb.DB).writeLocked":  {1, []int{0}, []int{0}, "", "entered with the lock; every exit passes exactly one unlockWrite"},
-	"(*leveldb.DB).unlockWrite":  {1, []int{0}, []int{0}, "", "releases or hands off"},
+	"(*leveldb.DB).Write":            {0, []int{0}, []int{0}, "", "acquires, then every exit goes through writeLocked / the merged-ack path / a finished transaction"},
+	"(*leveldb.DB).putRec":           {0, []int{0}, []int{0}, "", "as Write"},
+	"(*leveldb.DB).CompactRange":     {0, []int{0}, []int{0}, "memNonNil", "releases on every exit; the nil-effective-buffer exit is unreachable while the token is held (only Close clears the buffers, after taking the token)"},
+	"(*leveldb.DB).writeLocked":      {1, []int{0}, []int{0}, "", "entered with the lock; every exit passes exactly one unlockWrite"},
+	"(*leveldb.DB).unlockWrite":      {1, []int{0}, []int{0}, "", "releases or hands off"},
 	"(*leveldb.Transaction).setDone": {1, []int{0}, []int{0}, "", "releases the transaction's lock"},
 	"(*leveldb.Transaction).Discard": {1, []int{0}, []int{0}, "trOpen", "releases unless already closed"},
 	"(*leveldb.Transaction).Commit":  {1, []int{0}, []int{1}, "trOpen", "released via setDone on success, kept on error (documented retry/discard)"},
